@@ -1,4 +1,5 @@
 import FlatccModel.Json
+import FlatccModel.Base64Proofs
 import FlatccModel.Props.C19
 /-!
 # C05 — JSON print then parse preserves content (model-level theorems)
@@ -74,5 +75,45 @@ theorem C05_no_raw_control : ∀ c, c < 32 → ∀ b ∈ printByte c, 32 ≤ b :
 
 /-- non-vacuity: a string with NUL, quote, backslash, DEL and a raw high byte -/
 example : parseString (printString [0, 34, 92, 127, 200, 10] ++ [44]) = some ([0, 34, 92, 127, 200, 10], [44]) := by decide
+
+end Flatcc.Props.C05
+
+/-! ## base64 fields (`[ubyte] (base64)` / `(base64url)`)
+
+`Base64.lean` models `base64_encode` / `base64_decode` of `include/flatcc/portable/pbase64.h` (tables verbatim), the
+printer's chunk loop (`print_uint8_vector_base64_object`: chunks of a multiple of 3 source bytes between flushes) and the
+parser's field scanner (`flatcc_json_parser_build_uint8_vector_base64`). -/
+namespace Flatcc.Props.C05
+open Flatcc.Base64
+
+/-- **Base64 fields round-trip.** For EVERY byte vector, either alphabet and ANY sequence of flush points in the printer,
+the parser applied to the printed field (followed by any continuation) returns exactly the bytes and stops behind the
+closing quote. -/
+theorem C05_base64_roundtrip (rooms : List Nat) (s rest : List Nat) (urlsafe : Bool) (hs : ∀ b ∈ s, b < 256) :
+    parseBase64Field (printBase64Field rooms s urlsafe ++ rest) urlsafe = some (s, rest) :=
+  parse_print_field rooms s rest urlsafe hs
+
+/-- the printed base64 text needs no escaping: never a quote, a backslash or a control character (strict JSON) -/
+theorem C05_base64_text_is_plain (s : List Nat) (mode : Nat) (hs : ∀ b ∈ s, b < 256) :
+    ∀ b ∈ encode s mode, b ≠ 34 ∧ b ≠ 92 ∧ 32 ≤ b ∧ b < 127 :=
+  encode_no_escape s mode hs
+
+/-- the four printer modes against the parser's two decode modes, with the exact sizes the C code computes:
+encoded length = `base64_encoded_size`, the decode is exact, and `base64_decoded_size` (what the parser reserves) suffices -/
+theorem C05_base64_all_modes (s : List Nat) (mode : Nat) (hs : ∀ b ∈ s, b < 256)
+    (hmode : mode = 0 ∨ mode = 1 ∨ mode = 128 ∨ mode = 129) :
+    (encode s mode).length = encodedSize s.length mode
+    ∧ decode (encode s mode) (mode % 2) = ⟨0, s, (encode s mode).length⟩
+    ∧ decodeLim (decodedSize (encode s mode).length) (encode s mode) (mode % 2) = ⟨0, s, (encode s mode).length⟩
+    ∧ s.length ≤ decodedSize (encode s mode).length
+    ∧ (∀ b ∈ encode s mode, b ≠ 34 ∧ b ≠ 92 ∧ 32 ≤ b ∧ b < 127) :=
+  roundtrip_all_modes s mode hs hmode
+
+/-- the printer's chunks are whole 3-byte groups and never exceed the data (so chunked output = one-call output) -/
+theorem C05_base64_chunks (room dataLen mode : Nat) (h : (room + 3) / 4 * 4 < encodedSize dataLen mode) :
+    (room + 3) / 4 * 4 * 3 / 4 % 3 = 0 ∧ (room + 3) / 4 * 4 * 3 / 4 ≤ dataLen :=
+  print_chunk_in_bounds room dataLen mode h
+
+example : parseBase64Field (printBase64Field [5, 9] [0, 255, 34, 92, 10, 7, 200] false ++ [44]) false = some ([0, 255, 34, 92, 10, 7, 200], [44]) := by decide
 
 end Flatcc.Props.C05
